@@ -731,12 +731,17 @@ def __and__(self, other):
                     return a_coord
 
             elif len_a < len_b:
+                # project() needs the rank of its result while metrics are
+                # collected: the padded view stands for the same rank
+                a_rank_id = self.a_fiber.getRankAttrs().getId()
                 if isinstance(a_coord, int):
                     extra = (ANY,) * (len_b - 1)
-                    a = self.a_fiber.project(trans_fn=lambda c: (c,) + extra).__iter__(tick=False)
+                    a = self.a_fiber.project(trans_fn=lambda c: (c,) + extra,
+                                             rank_id=a_rank_id).__iter__(tick=False)
                 else:
                     extra = (ANY,) * (len_b - len_a)
-                    a = self.a_fiber.project(trans_fn=lambda c: c + extra).__iter__(tick=False)
+                    a = self.a_fiber.project(trans_fn=lambda c: c + extra,
+                                             rank_id=a_rank_id).__iter__(tick=False)
 
                 a_coord, a_payload = _get_next(a)
 
@@ -748,12 +753,15 @@ def __and__(self, other):
 
             # len_a > len_b
             else:
+                b_rank_id = self.b_fiber.getRankAttrs().getId()
                 if isinstance(b_coord, int):
                     extra = (ANY,) * (len_a - 1)
-                    b = self.b_fiber.project(trans_fn=lambda c: (c,) + extra).__iter__(tick=False)
+                    b = self.b_fiber.project(trans_fn=lambda c: (c,) + extra,
+                                             rank_id=b_rank_id).__iter__(tick=False)
                 else:
                     extra = (ANY,) * (len_a - len_b)
-                    b = self.b_fiber.project(trans_fn=lambda c: c + extra).__iter__(tick=False)
+                    b = self.b_fiber.project(trans_fn=lambda c: c + extra,
+                                             rank_id=b_rank_id).__iter__(tick=False)
 
                 b_coord, b_payload = _get_next(b)
 
